@@ -1,5 +1,5 @@
 (* Second-generation Session model (coq/theories/Session2): the output queue [_out_packet] and a
-   transport that may refuse writes are part of the model; a packet is first HANDED to the connection
+   transport that may refuse writes or fail hard are part of the model ([no_fail ops]: no hard failure in the history); a packet is first HANDED to the connection
    ([Handed]) and WRITTEN ([Tx]) when the transport accepts it; reconnect() drops whatever is queued.
    The statements are in Session2/Statements.v, the checkers in Session2/Check.v; [conforming] lets an
    acknowledgement arrive only for a packet that was written.  To be distributed over Props/C01.v,
@@ -13,16 +13,16 @@ From PahoV Require Import Base.Prelude Session2.Model Session2.Check Session2.St
    unwritten PUBLISH; on an established connection every owned message has been handed to the connection
    (and written unless the transport refuses writes) or the window is full. *)
 Theorem S2_C01_owned_handed_written_completed_once : forall c ops,
-  cfg_ok c = true -> conforming c ops = true -> c01_ok c (optrace c ops) = true.
-Proof. exact c01_proved. Qed.
+  cfg_ok c = true -> conforming c ops = true -> no_fail ops = true -> c01_ok c (optrace c ops) = true.
+Proof. exact c01_calm_proved. Qed.
 Print Assumptions S2_C01_owned_handed_written_completed_once.
 
 (* C02 - persistent session: no PUBLISH is written for a message past PUBREC; PUBREL handed in the operation
    of every accepting CONNACK (written there unless blocked); a PUBLISH written before carries DUP = 1, a
    message never handed to a connection before carries DUP = 0, QoS 0 never DUP. *)
 Theorem S2_C02_no_republish_pubrel_dup : forall c ops,
-  cfg_ok c = true -> conforming c ops = true -> c02_ok c (optrace c ops) = true.
-Proof. exact c02_proved. Qed.
+  cfg_ok c = true -> conforming c ops = true -> no_fail ops = true -> c02_ok c (optrace c ops) = true.
+Proof. exact c02_calm_proved. Qed.
 Print Assumptions S2_C02_no_republish_pubrel_dup.
 
 (* C03 - arbitrary histories: callbacks and the replies handed to the connection are those of the abstract receiver *)
@@ -32,19 +32,19 @@ Print Assumptions S2_C03_refines_receiver.
 
 (* C12 - the window bounds the packets written on the current connection ... *)
 Theorem S2_C12_window_written : forall c ops,
-  cfg_ok c = true -> conforming c ops = true -> c12_window_ok c (optrace c ops) = true.
-Proof. exact c12_window_proved. Qed.
+  cfg_ok c = true -> conforming c ops = true -> no_fail ops = true -> c12_window_ok c (optrace c ops) = true.
+Proof. exact c12_window_calm_proved. Qed.
 Print Assumptions S2_C12_window_written.
 
 (* ... and, stronger, the packets handed to it *)
 Theorem S2_C12_window_handed : forall c ops,
-  cfg_ok c = true -> conforming c ops = true -> c12_handed_ok c (optrace c ops) = true.
-Proof. exact c12_handed_proved. Qed.
+  cfg_ok c = true -> conforming c ops = true -> no_fail ops = true -> c12_handed_ok c (optrace c ops) = true.
+Proof. exact c12_handed_calm_proved. Qed.
 Print Assumptions S2_C12_window_handed.
 
 Theorem S2_C12_queue_bound : forall c ops,
-  cfg_ok c = true -> conforming c ops = true -> c12_queue_ok c (optrace c ops) = true.
-Proof. exact c12_queue_proved. Qed.
+  cfg_ok c = true -> conforming c ops = true -> no_fail ops = true -> c12_queue_ok c (optrace c ops) = true.
+Proof. exact c12_queue_calm_proved. Qed.
 Print Assumptions S2_C12_queue_bound.
 
 Theorem S2_C12_no_idle_slot : forall c ops, cfg_ok c = true -> conforming c ops = true ->
@@ -57,13 +57,13 @@ Print Assumptions S2_C12_no_idle_slot.
 
 (* C13 - publish() order of the hand-overs and of the writes, per connection *)
 Theorem S2_C13_order_handed : forall c ops,
-  cfg_ok c = true -> conforming c ops = true -> c13_handed_ok c (optrace c ops) = true.
-Proof. exact c13_handed_proved. Qed.
+  cfg_ok c = true -> conforming c ops = true -> no_fail ops = true -> c13_handed_ok c (optrace c ops) = true.
+Proof. exact c13_handed_calm_proved. Qed.
 Print Assumptions S2_C13_order_handed.
 
 Theorem S2_C13_order_written : forall c ops,
-  cfg_ok c = true -> conforming c ops = true -> c13_tx_ok c (optrace c ops) = true.
-Proof. exact c13_tx_proved. Qed.
+  cfg_ok c = true -> conforming c ops = true -> no_fail ops = true -> c13_tx_ok c (optrace c ops) = true.
+Proof. exact c13_tx_calm_proved. Qed.
 Print Assumptions S2_C13_order_written.
 
 (* on any trace (model or implementation) that obeys the queue discipline, order of the hand-overs gives order of the writes *)
@@ -84,9 +84,9 @@ Print Assumptions S2_FIFO_queue_discipline.
    a QoS 1 and a QoS 2 PUBLISH and a PUBREC are dropped by reconnect(), a PUBREL is written late *)
 Definition ex_cfg := mkCfg 0 2 0 false false.
 Definition ex_ops : list op :=
-  [OReconnect true; ORx (IConnack 0) false; OBlock true; OPublish 1; OPublish 2; OPublish 0;
+  [OReconnect true; ORx (IConnack 0) false; OTransport TBlock; OPublish 1; OPublish 2; OPublish 0;
    ORx (IPublish 2 8 301) false; OConnLost; OReconnect true; ORx (IConnack 0) false;
-   ORx (IPuback 1) false; OBlock true; ORx (IPubrec 2) false; OBlock false; ORx (IPubcomp 2) false].
+   ORx (IPuback 1) false; OTransport TBlock; ORx (IPubrec 2) false; OTransport TAccept; ORx (IPubcomp 2) false].
 
 Example S2_nonvacuous_history :
   cfg_ok ex_cfg = true /\ conforming ex_cfg ex_ops = true /\
@@ -107,10 +107,31 @@ Example S2_nonvacuous_history :
   out (fst (run ex_cfg ex_ops)) = [].
 Proof. vm_compute. repeat split; reflexivity. Qed.
 
+(* a conforming history with HARD write failures (not covered by [no_fail]): the peer vanishes while a QoS 1 message
+   is in flight; publish(qos=2) hands its PUBLISH over, the write fails, the connection is torn down inside
+   publish(), which takes the message out of the window again and reports MQTT_ERR_NO_CONN (4); after the
+   reconnect the CONNACK retransmission loop stops at its first failed write.  All trace checkers accept the run,
+   and the structural invariant holds in every state (Inv.v: [inv_reachable] covers such histories). *)
+Definition ex_fail_ops : list op :=
+  [OReconnect true; ORx (IConnack 0) false; OPublish 1; OTransport TFail; OPublish 2;
+   OReconnect true; OTransport TFail; ORx (IConnack 0) false; OReconnect true; ORx (IConnack 0) false;
+   ORx (IPuback 1) false; ORx (IPubrec 2) false; ORx (IPubcomp 2) false].
+
+Example S2_hard_failure_history :
+  conforming ex_cfg ex_fail_ops = true /\ no_fail ex_fail_ops = false /\
+  nth 4 (optrace ex_cfg ex_fail_ops) [] = [Handed 1 (PPublish 2 2 false 1); SockLost; Ret 1 2 2 4] /\
+  nth 7 (optrace ex_cfg ex_fail_ops) [] = [Inp (IConnack 0); Handed 2 (PPublish 1 1 true 0); SockLost] /\
+  c01_ok ex_cfg (optrace ex_cfg ex_fail_ops) = true /\ c02_ok ex_cfg (optrace ex_cfg ex_fail_ops) = true /\
+  c03_ok ex_cfg (optrace ex_cfg ex_fail_ops) = true /\ c12_window_ok ex_cfg (optrace ex_cfg ex_fail_ops) = true /\
+  c12_handed_ok ex_cfg (optrace ex_cfg ex_fail_ops) = true /\ c12_queue_ok ex_cfg (optrace ex_cfg ex_fail_ops) = true /\
+  c13_handed_ok ex_cfg (optrace ex_cfg ex_fail_ops) = true /\ c13_tx_ok ex_cfg (optrace ex_cfg ex_fail_ops) = true /\
+  fifo_ok (optrace ex_cfg ex_fail_ops) = true /\ out (fst (run ex_cfg ex_fail_ops)) = [].
+Proof. vm_compute. repeat split; reflexivity. Qed.
+
 (* without the conformance hypothesis the properties are false of any client: a PUBACK for a PUBLISH that is
    still queued completes the message, and the stale PUBLISH is written afterwards *)
 Example S2_conformance_needed :
-  let ops := [OReconnect true; ORx (IConnack 0) false; OBlock true; OPublish 1; ORx (IPuback 1) false; OBlock false] in
+  let ops := [OReconnect true; ORx (IConnack 0) false; OTransport TBlock; OPublish 1; ORx (IPuback 1) false; OTransport TAccept] in
   conforming ex_cfg ops = false /\ c12_window_ok (mkCfg 0 1 0 false false) (optrace (mkCfg 0 1 0 false false) (ops ++ [OPublish 1])) = false.
 Proof. vm_compute. split; reflexivity. Qed.
 
